@@ -110,7 +110,12 @@ def step (s : State) (op : List String) : List (State × List Ev) :=
     let call := natOf call
     if s.closed then
       match s.recvQ with
-      | [] => [(s, [Ev.retErr call "closed"])]
+      | [] =>
+        -- nothing queued; a BUS receiver still holding a message keeps offering it (it only watches its own pipe):
+        -- the select may take it instead of the closed channel
+        match s.blocked with
+        | [] => [(s, [Ev.retErr call "closed"])]
+        | (_, m) :: bl => [(s, [Ev.retErr call "closed"]), settled { s with blocked := bl } [] [(call, Ev.retMsg call (userView s m).1 (userView s m).2)]]
       | m :: q => [(s, [Ev.retErr call "closed"]), settled { s with recvQ := q } [] [(call, Ev.retMsg call (userView s m).1 (userView s m).2)]]
     else [settled { s with waiting := s.waiting ++ [call] } [] []]
   | ["setopt", _, "TTL", n] => [({ s with ttl := natOf n }, [Ev.res "ok"])]
